@@ -10,6 +10,8 @@ def flo_worker(ctx, job, feats, monitor_fns, refcompare=True, nontrivial=None, s
         rng = random.Random(seed)
         if feats[fi % len(feats)].get("family") == "nested":
             prog = gen.nested_condaux_program(rng)
+        elif feats[fi % len(feats)].get("family") == "shared":
+            prog = gen.shared_condaux_program(rng)
         else:
             prog = gen.gen_program(rng, gen.pickfeat(feats, fi))
         if mutate:
